@@ -328,7 +328,8 @@ PROPS["C13"] = _cw20_prop("C13", 2, C13_CLAUSES, "supply and minter/cap",
     "for C01 (S_C13 + equality of supply and minter).")
 PROPS["C19"] = _cw20_prop("C19", 3, C19_CLAUSES, "owner and spender allowance listings",
     "Axiom-free Coq theorems: in every reachable state the owner-keyed and spender-keyed allowance tables mirror each other "
-    "(invariant by induction over histories), and migrate establishes the mirror from EVERY pre-0.14 table; S_C19 is proved never "
+    "(invariant by induction over histories), and migrate establishes the mirror from EVERY pre-0.14 table; any history, then the "
+    "upgrade of the legacy layout, then any history keeps the three views in agreement (c19_lifecycle); S_C19 is proved never "
     "to fire on a state satisfying the invariant (c19_contract_never_fires_on_model). Tie to the Rust: "
     "on every step of generated histories (incl. a stripped legacy layout followed by migrate) the three query views are "
     "compared in Coq (S_C19) and both listings are compared with the model's tables (measured).")
